@@ -151,3 +151,26 @@ decoder(
     # a device path starts with two separators and a '.' or '?': the first two pieces are empty and the third is not
     asserts={"path_type = 'windows.device.path'": {"device-prefix-occupies-a-segment": "implies(len(segments) >= 3, len(segments[2]) >= 1)"}},
 )
+
+# ---- embedded PE files (C01 / C03 / C11): the span arithmetic; pefile itself is trusted
+contract("multidecoder.decoders.pe_file.pe_size", props=["C01", "C03"], trusted=True, types={"pe_data": "bytes"}, returns="int",
+         ensures={"non-negative": "result >= 0"},
+         notes="ASSUMED: pefile.PE raises only PEFormatError (caught) and section offsets / sizes are unsigned, so the result is a non-negative integer")
+decoder(
+    "multidecoder.decoders.pe_file.find_pe_files",
+    ["C01", "C03", "C11"],
+    collector="pe_files",
+    types={"pe_files": "list[Node]"},
+    each={**T("pe_file", ""), "value-is-the-text-covered": "node.value == data[node.start : node.end]", "not-empty": "node.start < node.end"},
+)
+
+# ---- PowerShell byte arrays (C01 / C03 / C13): spans and children; the key search itself (xortool: floats, itertools) is trusted
+contract("multidecoder.xortool.xortool", props=["C13"], trusted=True, types={"ciphertext": "bytes", "known_key_lengths": "list[int]"}, returns="list[bytes]",
+         notes="ASSUMED total (see the recorded limit limit-xortool: its key space can blow up); the value of the guessed plaintext is covered by the bounded multibyte-xor stand-in of C13")
+decoder(
+    "multidecoder.decoders.powershell.find_powershell_bytes",
+    ["C01", "C03", "C13"],
+    collector="out",
+    types={"out": "list[Node]"},
+    each={**T("powershell.bytes", "")},
+)
